@@ -14,6 +14,16 @@ CHECKS = {
         design='DESIGN.md 5 C01',
         technique='bounded symbolic execution of the transpiled Rust checker (symx + z3) with semantic validity obligations over finite models decided by z3 (CEGIS over premise valuations); replay on the real binary',
     ),
+    'C03': dict(
+        text='ProofExp.serialize (unmodified, both optimise settings, in-memory sinks) is executed symbolically on generated modules: import graphs (none, chain, diamond), declaration lists and claim choices by forking, every id symbolic (one level with ids up to 1000 so the 255/256 boundary is inside the domain). The emitted gamma and claim streams are decoded by an independent implementation of the documented machine and must equal the declaration in order, for both settings; symbol numbering must be injective; an unencodable id must raise. The ">256 symbols" clause is a separate concrete test (256 / 257 / 300 symbols through the real bytes()).',
+        note='Trusted: z3, symx, vf/refm.py as decoder, my stand-in for bytes() (same range contract). Bounds: <= 2/3 axioms of <= 3 nodes per module, <= 2 claims, <= 4 modules.',
+        design='DESIGN.md 5 C03',
+    ),
+    'C04': dict(
+        text='Call sequences against the real SerializingInterpreter are explored symbolically (next call by forking among those the tracked stack admits; all ids symbolic); after every call the bytes emitted so far, symbolic operands included, are executed by an independent implementation of the documented machine, whose stack, memory and claim stack must equal the tracker state (modulo notation expansion and symbol numbering). Module-level runs (imports, repeated axioms, loads of every axiom) cover Load addressing. Divergences that are on record (known_findings.json) are re-observed, reported as KNOWN-FINDING and, where possible, stepped over so the behaviour behind them stays covered.',
+        note='Trusted: z3, symx, vf/refm.py (assumptions a1-a5, unspecified u1-u4 skipped and counted). Bounds: <= 3-4 calls (quick) / 4-6 (thorough) per alphabet and phase.',
+        design='DESIGN.md 5 C04',
+    ),
     'C05': dict(
         text='The Rust checker (re-transpiled from rust/src/lib.rs on every run and validated in the same run against the rustc-built binary on 4000+ streams, verdict and Debug state) and an independent implementation of docs/proof-language.md consume the same symbolic byte buffers: every byte of short streams, and one or two bytes of valid programs at every position (plus every truncation), are z3 variables; verdicts and final stack/memory/claims must agree on every feasible path. Behaviour the document leaves undefined is skipped and counted, not judged.',
         note='Trusted: z3, symx, rs2py (validated per run), vf/refm.py = my reading of the document with assumptions a1-a5 and unspecified cases u1-u3 listed in the evidence. Bounds: <= 3 (quick) / 6 (thorough) symbolic proof bytes, small gamma/claim prefixes, 1 (quick) / 2 (thorough) symbolic bytes in 6-7 valid programs.',
@@ -45,16 +55,18 @@ CHECKS = {
         note='Trusted: z3, symx, vf/oracle.py. Bounds: pattern <= 3/4, instance <= 4, values <= 2, equation lists <= 2, notation arguments <= 2/3 nodes.',
         design='DESIGN.md 5 C13',
     ),
+    'C14': dict(
+        text='Serialiser and deserialiser are executed symbolically back to back on call sequences (all ids/operands symbolic and flowing through both): the fresh interpreter must end in the same stack, memory and claims and re-emit the same bytes; every truncation of an emitted stream inside an instruction and a list of invalid opcodes at every instruction start must raise.',
+        note='Trusted: z3, symx, my instruction-boundary decoder (operand layout only). Bounds: <= 3-4 calls (quick) / 4-6 (thorough); opcode bytes concrete, operands symbolic.',
+        design='DESIGN.md 5 C14',
+    ),
 }
 
 NOT_YET = {
     'C02': 'check under construction in this session; not claimed until it runs',
-    'C03': 'check under construction in this session; not claimed until it runs',
-    'C04': 'check under construction in this session; not claimed until it runs',
     'C08': 'check under construction in this session; not claimed until it runs',
     'C09': 'check under construction in this session; not claimed until it runs',
     'C10': 'check under construction in this session; not claimed until it runs',
-    'C14': 'check under construction in this session; not claimed until it runs',
     'C15': 'check under construction in this session; not claimed until it runs',
     'C18': 'check under construction in this session; not claimed until it runs',
     'C19': 'check under construction in this session; not claimed until it runs',
